@@ -123,6 +123,13 @@ def discover_holders(prog):
                 l = strip(e['lhs'])
                 if not isinstance(l, dict):
                     continue
+                if l.get('k') == 'deref':
+                    # `*p = obj` where p always is the address of one member (`slot = &st->marker`, or the parameter of a
+                    # static helper that is handed such an address): a store into that member, not into an array slot
+                    t = h01.pointee_lvalue(prog, f, l['e'])
+                    if t is not None:
+                        e = dict(e, lhs=t)
+                        l = t
                 if l.get('k') == 'var':
                     if l.get('vk') in ('global', 'staticlocal'):
                         rec = objrec(e['rhs'], prog, f)
@@ -408,7 +415,8 @@ def edges_excluding(g, field, val, objs):
     for b, blk in g.blocks.items():
         for si in range(len(blk.succ)):
             for (op, lc, rc_, l, r) in h01.edge_atoms(blk, si):
-                if last_member(l) == field and (h01.base_var_names(l) & objs) and _excludes(op, rc_, val):
+                key, bases = h01.field_of(g, blk, l)         # the field read in the test, or a local that caches it
+                if key == field and (bases & objs) and _excludes(op, rc_, val):
                     out.add((b, si))
     return out
 
@@ -584,7 +592,7 @@ def _check_tree(g, un, rec, fld, spec):
             for (op, lc, rc_, l, r) in h01.edge_atoms(blk, si):
                 if op == '!=' and rc_ == '0' and spec['unless'] in {(x.get('record'), x.get('field')) for x in walk(l) if x.get('k') == 'member'}:
                     return True
-                if last_member(l) == spec['unless'] and _excludes(op, rc_, 0):
+                if h01.field_of(g, blk, l)[0] == spec['unless'] and _excludes(op, rc_, 0):
                     return True
         return s
     _, ev_in = forward(g, False, tr, lambda a, b: a and b, edge=edge)
@@ -671,7 +679,8 @@ def _index_fixed(g, objs, idxkeys, free, with_edges):
     def edge(blk, si, s):
         if with_edges:
             for (op, lc, rc_, l, r) in h01.edge_atoms(blk, si):
-                if op == '==' and rc_ == str(free) and last_member(l) in idxkeys and (h01.base_var_names(l) & objs):
+                key, bases = h01.field_of(g, blk, l)
+                if op == '==' and rc_ == str(free) and key in idxkeys and (bases & objs):
                     return True
         return s
     _, ev_in = forward(g, False, tr, lambda a, b: a and b, edge=edge)
@@ -778,7 +787,10 @@ def _check_epoll_sync(g, un, prog, t):
         return S
     def edge(blk, si, S):
         for (op, lc, rc_, l, r) in h01.edge_atoms(blk, si):
-            if op == '==' and {last_member(l), last_member(r)} == {('iv_fd_', 'registered_bands'), ('iv_fd_', 'wanted_bands')}:
+            # what the kernel has == what is wanted: the two fields read in the test, or locals that hold their current
+            # values (h01.field_caches: no store to the field, no callback, no lock operation since the local was loaded)
+            if op == '==' and isinstance(l, dict) and isinstance(r, dict) and \
+                    {h01.field_of(g, blk, l)[0], h01.field_of(g, blk, r)[0]} == {('iv_fd_', 'registered_bands'), ('iv_fd_', 'wanted_bands')}:
                 S = frozenset((True, l_) for (_, l_) in S)
         st = _empty_edge(g, blk, si, key)
         if st == 'empty':      # impossible when certainly linked
